@@ -365,26 +365,39 @@ class C17(PropCheck):
             if f"{kind}{m}" in log and (mr if has_mod else br) and f"warn{m}" not in log:
                 return f"raising glue of module {m} produced no warning (log {log})"
         if case["k"] == "seq":
-            if not len_visible(case):
-                return None if not self.f4_unlisted(case, log) else self.f4_unlisted(case, log)
-            # in time: at every return, every module inserted so far has had its glue run
+            # in time: when an extraction returns, every module present has had its glue run — except in the one situation
+            # known finding F4 describes: the number of modules equals what it was at the last complete scan although the set
+            # changed (that extraction is not judged; every other one is)
             present: List[int] = []
-            it = iter(log)
+            last_scan_len: Optional[int] = 0       # the harness starts from a complete scan of an empty module set
             pos = 0
             for op in case["ops"]:
                 if op[0] == "insert":
                     if op[1] not in present:
                         present.append(op[1])
+                elif op[0] == "remove":
+                    if op[1] in present:
+                        present.remove(op[1])
                 elif op[0] in ("extract", "extractR"):
-                    # advance to the next 'ret'
                     while pos < len(log) and log[pos] != "ret":
                         pos += 1
                     upto = log[:pos]
                     pos += 1
-                    for m in present:
-                        _, has_mod, has_builtin, _, _ = mods[m]
-                        if (has_mod or has_builtin) and f"{'mod' if has_mod else 'builtin'}{m}" not in upto:
-                            return f"extraction returned before the glue of module {m} (present since earlier) had run (log {log})"
+                    gone = op[1] if op[0] == "extractR" else []
+                    scanned = last_scan_len is None or len(present) != last_scan_len
+                    if scanned:
+                        for m in present:
+                            if m in gone:
+                                continue
+                            _, has_mod, has_builtin, _, _ = mods[m]
+                            if (has_mod or has_builtin) and f"{'mod' if has_mod else 'builtin'}{m}" not in upto \
+                                    and f"{'builtin' if has_mod else 'mod'}{m}" not in upto:
+                                return (f"extraction returned before the glue of module {m} (present when it started, and the module count "
+                                        f"differed from the last complete scan's) had run (log {log})")
+                        last_scan_len = None if any(g in present for g in gone) else len(present)
+                    for g in gone:
+                        if g in present:
+                            present.remove(g)
             return None
         # concurrent
         if real.get("returned_early"):
